@@ -6,6 +6,7 @@ package main
 // outcomes and the direct runtime predicates. Comparison/projection policy lives in bin/check.
 
 import (
+	"sort"
 	"bufio"
 	"bytes"
 	"encoding/hex"
@@ -37,6 +38,8 @@ type Case struct {
 	Inputs []json.RawMessage `json:"inputs,omitempty"`
 	Others []string          `json:"others,omitempty"`
 	Tags   []string          `json:"tags,omitempty"`
+	// history: variables registered on the expression (Expr.RegisterVars) before the first evaluation
+	Vars map[string]interface{} `json:"vars,omitempty"`
 }
 
 type Result struct {
@@ -275,6 +278,14 @@ func runEvalCase(c Case) (Result, string) {
 		return r, ""
 	}
 	r.Compile = "ok"
+	var savedVars interface{}
+	if len(c.Vars) > 0 {
+		savedVars = deepCopyJSON(interface{}(c.Vars))
+		if err := e.RegisterVars(c.Vars); err != nil {
+			r.Impl = "X register " + err.Error()
+			return r, ""
+		}
+	}
 	str0 := e.String()
 	tree0 := rootWire(e)
 	root0 := ""
@@ -301,6 +312,10 @@ func runEvalCase(c Case) (Result, string) {
 	} else {
 		r.Direct["immut"] = "input changed"
 		input = deepCopyJSON(saved)
+	}
+	// ... and so is every value registered as a variable
+	if savedVars != nil && !reflect.DeepEqual(savedVars, interface{}(c.Vars)) {
+		r.Direct["immut"] = "a value registered as a variable changed"
 	}
 	if o.hung {
 		return r, ""
@@ -433,6 +448,27 @@ func runEvalCase(c Case) (Result, string) {
 		line = c.ID + "|E|" + root0 + "|" + inputWire(saved) + "|" + strconv.FormatInt(clock, 10) + "|"
 	}
 	return r, line
+}
+
+// modelSource: registered variables are bound by a block around the expression on the model side
+// (a JSON text is an expression that denotes itself)
+func modelSource(c Case) string {
+	if len(c.Vars) == 0 {
+		return c.Expr
+	}
+	names := make([]string, 0, len(c.Vars))
+	for k := range c.Vars {
+		names = append(names, k)
+	}
+	sort.Strings(names)
+	var sb strings.Builder
+	sb.WriteString("(")
+	for _, k := range names {
+		b, _ := json.Marshal(c.Vars[k])
+		sb.WriteString("$" + k + " := " + string(b) + "; ")
+	}
+	sb.WriteString(c.Expr + ")")
+	return sb.String()
 }
 
 // ---- oracle ----
@@ -672,7 +708,7 @@ func main() {
 				lines[c.ID] = line
 			}
 			if r.Compile == "ok" || strings.HasPrefix(r.Compile, "E ") {
-				srclines[c.ID] = c.ID + "|P|" + hex.EncodeToString([]byte(c.Expr)) + "|"
+				srclines[c.ID] = c.ID + "|P|" + hex.EncodeToString([]byte(modelSource(c))) + "|"
 			}
 		}
 		rr := r
